@@ -126,7 +126,17 @@ def apply_real(A, op):
     elif k == 'slice_slice':
         A[op[1]:op[2], op[3]:op[4]] = op[5]
     elif k == 'pairs':
-        A[[i for i, _ in op[1]], [j for _, j in op[1]]] = op[2]
+        # negative ndarray index arrays: they are the caller's arguments and must not be rewritten
+        n_rows = len(A.lengths)
+        r = np.array([i - n_rows for i, _ in op[1]])
+        c = np.array([j - int(A.lengths[i]) for i, j in op[1]])
+        r0, c0 = r.copy(), c.copy()
+        A[r, c] = op[2]
+        got = A[r, c]
+        if not (np.array_equal(r, r0) and np.array_equal(c, c0)):
+            raise AssertionError('index arrays passed to __setitem__/__getitem__ were modified: %r,%r -> %r,%r' % (r0, c0, r, c))
+        if np.asarray(got).tolist() != list(op[2]):
+            raise AssertionError('read-back through the same index arrays gives %r, wrote %r' % (np.asarray(got).tolist(), op[2]))
     elif k == 'mask_gt':
         A[A > op[1]] = op[2]
     elif k == 'mask_le':
@@ -224,6 +234,34 @@ def invariant(A, rows, ctx, case):
                 return True
             ck('operator', run)
             ctx.guard('operators_checked')
+    # comparisons on data containing NaN (float arrays): every operator must equal the per-row numpy result
+    if dt.kind == 'f':
+        def run_nan():
+            rows_n = [r.copy() for r in rows]
+            rows_n[0][0] = np.nan
+            if len(rows_n[-1]) > 1:
+                rows_n[-1][-1] = np.nan
+            An = ra.RaggedArray([r.copy() for r in rows_n])
+            Bn = ra.RaggedArray([r[::-1].copy() for r in rows_n])
+            for sym, f in (('<', lambda a, b: a < b), ('<=', lambda a, b: a <= b), ('>', lambda a, b: a > b),
+                           ('>=', lambda a, b: a >= b), ('==', lambda a, b: a == b), ('!=', lambda a, b: a != b)):
+                for other, omodel in ((4.0, None), (Bn, [r[::-1] for r in rows_n])):
+                    res = f(An, other)
+                    want = [f(r, 4.0 if omodel is None else omodel[i]) for i, r in enumerate(rows_n)]
+                    if [np.asarray(r).tolist() for r in res] != [w.tolist() for w in want]:
+                        return 'comparison %s with NaN present: %r != %r' % (sym, [np.asarray(r).tolist() for r in res], [w.tolist() for w in want])
+                    if omodel is None:
+                        res2 = f(4.0, An)
+                        want2 = [f(4.0, r) for r in rows_n]
+                        if [np.asarray(r).tolist() for r in res2] != [w.tolist() for w in want2]:
+                            return 'reflected comparison %s with NaN present differs' % sym
+            sel = An[An <= 4.0]
+            wsel = np.concatenate(rows_n)
+            wsel = wsel[wsel <= 4.0]
+            if np.asarray(sel).tolist() != wsel.tolist():
+                return 'mask a[a <= 4.0] with NaN present: %r != %r' % (np.asarray(sel).tolist(), wsel.tolist())
+            return True
+        ck('comparison_nan', run_nan)
     # numpy scalars are scalars too (left and right operand)
     for sym, f in (('-', lambda a, b: a - b), ('*', lambda a, b: a * b), ('<', lambda a, b: a < b)):
         for side in ('left', 'right'):
